@@ -62,6 +62,8 @@ def shards(tier, seed):
             if kind == "actisense" and fault == "write_error":
                 continue            # this client has no wire format for sending (C19 covers send on it)
             out.append({"name": f"{kind}-{fault}", "kind": kind, "what": "fault", "fault": fault, "scb": "ok", "tier": tier, "seed": seed})
+            if fault in ("eof", "reset") and kind != "waveshare":
+                out.append({"name": f"{kind}-{fault}-conformance-real-tcp", "kind": kind, "what": "conformance", "fault": fault, "tier": tier, "seed": seed})
             # a status callback that suspends widens every window in which connect() still holds its lock
             for scb in ("slow", "slow_connected", "slow_disconnected"):
                 if tier != "quick" or (fault in ("write_error", "reset", "eof") and scb != "slow_disconnected"):
@@ -239,9 +241,82 @@ def check_backoff(sim, stats, acc, kind, k, exc):
     acc.count("recoveries_checked")
 
 
+def conformance(spec, acc):
+    """Simulator fidelity: the same fault on a real loopback TCP socket (real EOF via close, real RST via
+    SO_LINGER 0, real time). Only the order of status notifications and deliveries is compared with the
+    simulated session; a disagreement is a note / counter, never a verdict."""
+    import struct
+    import time as _time
+    from nmea2000.ioclient import EByteNmea2000Gateway, ActisenseNmea2000Gateway, YachtDevicesNmea2000Gateway
+    kind, fault = spec["kind"], spec["fault"]
+
+    async def one():
+        accepted = []
+
+        async def handle(reader, writer):
+            n = len(accepted)
+            accepted.append(writer)
+            writer.write(packet(kind, 100 + n))
+            await writer.drain()
+            if n == 0:
+                await asyncio.sleep(0.3)
+                sock = writer.get_extra_info("socket")
+                if fault == "reset":
+                    sock.setsockopt(socket.SOL_SOCKET, socket.SO_LINGER, struct.pack("ii", 1, 0))
+                writer.close()
+            else:
+                await asyncio.sleep(3)
+        server = await asyncio.start_server(handle, "127.0.0.1", 0)
+        port = server.sockets[0].getsockname()[1]
+        cls = {"ebyte": EByteNmea2000Gateway, "actisense": ActisenseNmea2000Gateway, "yd": YachtDevicesNmea2000Gateway}[kind]
+        client = cls("127.0.0.1", port)
+        status, got = [], []
+
+        async def on_status(st):
+            status.append(st.name)
+
+        async def on_msg(m):
+            got.append(m.source)
+        client.set_status_callback(on_status)
+        client.set_receive_callback(on_msg)
+        ticks = [0]
+
+        async def hb():
+            while True:
+                await asyncio.sleep(0.05)
+                ticks[0] += 1
+        hbt = asyncio.ensure_future(hb())
+        await asyncio.wait_for(client.connect(), 5)
+        t0 = _time.time()
+        while _time.time() - t0 < 6 and not (len(got) >= 2 and status[-1:] == ["CONNECTED"] and len(status) >= 3):
+            await asyncio.sleep(0.05)
+        elapsed = _time.time() - t0
+        hbt.cancel()
+        await asyncio.wait_for(client.close(), 5)
+        server.close()
+        return status, got, ticks[0], elapsed
+    try:
+        status, got, ticks, elapsed = asyncio.run(asyncio.wait_for(one(), 30))
+    except Exception as e:  # noqa: BLE001
+        acc.note(f"conformance {kind}/{fault} over real TCP could not be completed: {type(e).__name__}: {e}")
+        return
+    acc.count("conformance_runs")
+    acc.case(None)
+    # the simulated counterpart (fault after the first delivery)
+    sim, stats, info = fault_session(kind, fault, 10 ** 9, settle=1.0)
+    want_status = ["CONNECTED", "DISCONNECTED", "CONNECTED", "CLOSED"]
+    if status != want_status or got[:2] != [100, 101] or ticks < elapsed / 0.05 * 0.5:
+        acc.count("conformance_mismatches")
+        acc.note(f"conformance {kind}/{fault} over real TCP: status {status}, deliveries {got}, heartbeat {ticks} ticks in {elapsed:.1f}s")
+    else:
+        acc.count("conformance_real_tcp_recoveries_equal")
+
+
 def run_shard(spec, acc):
     kind = spec["kind"]
     quick = spec["tier"] == "quick"
+    if spec["what"] == "conformance":
+        return conformance(spec, acc)
     rng = gen.rng_for(spec["seed"], ID, spec["name"])
     if spec["what"] == "refusals":
         errs = refusal_errors(kind)
